@@ -109,7 +109,7 @@ def in_domain(kind, year, us):
 def part_a(ctx):
     rng = ctx.rng
     dates = list(FIXED_DATES)
-    for _ in range(ctx.n(24, 520)):
+    for _ in range(ctx.n(14, 520)):
         y = rng.choice([rng.randint(1, 9999), rng.randint(1940, 2080), rng.randint(1, 1100)])
         mo = rng.randint(1, 12)
         d = rng.choice([1, x680time.month_len(y, mo), rng.randint(1, x680time.month_len(y, mo))])
@@ -211,7 +211,7 @@ def grammar_strings(ctx):
                                 (core_set if first else extended).append(('G', date + form + sep + fr + z, True))
             first = False
     rng.shuffle(extended)
-    out = core_set + extended[:ctx.n(700, 12000)]
+    out = core_set + extended[:ctx.n(400, 12000)]
     udates = ['170801', '991231', '000229', '500101', '491231', '680101', '690101', '%02d%02d%02d' % (rng.randint(0, 99), rng.randint(1, 12), rng.randint(1, 28))]
     uzones = ['Z', '+0000', '+0100', '-0100', '+0530', '-0330', '+1400', '-1200']
     for date in udates:
@@ -316,8 +316,9 @@ def part_b(ctx):
         if rl is not None:
             exprs.append('let r := as_dt %s %s in is_unmodelled r || res_eqb dt_eqb r %s' % (K, ctext(s), rl))
             meta.append(dict(case, cmp='as_dt', back=repr(back), finding=None))
-            exprs.append('negb (is_unmodelled (as_dt %s %s))' % (K, ctext(s)))
-            meta.append(dict(case, cmp='count-unmodelled', finding=None))
+            if inst is None:      # strings of the grammar always have 2-digit groups: never unmodelled
+                exprs.append('negb (is_unmodelled (as_dt %s %s))' % (K, ctext(s)))
+                meta.append(dict(case, cmp='count-unmodelled', finding=None))
     ctx.sample(meta[3]); ctx.sample(meta[len(meta) // 2])
     return exprs, meta
 
@@ -333,7 +334,7 @@ def run(ctx):
     ea, ma = part_a(ctx)
     eb, mb = part_b(ctx)
     exprs, meta = ea + eb, ma + mb
-    bad = core.coq_bools('c20', IMPORTS, exprs, defs=DEFS)
+    bad = core.coq_bools('c20', IMPORTS, exprs, defs=DEFS, shard=500)
     for i in bad:
         m = meta[i]
         if m['cmp'] == 'count-unmodelled':
